@@ -275,6 +275,26 @@ def Un.run (s : Un) : List UnOp → Option Un
     | none => none
     | some (s', _) => s'.run os
 
+/-- an operation applied at the end of a program (skipped when it does not apply) -/
+def Un.stepD (s : Un) (op : UnOp) : Un :=
+  match s.step op with
+  | some (s', _) => s'
+  | none => s
+
+/-- end of the program: the handles that are still alive are destroyed slot by slot … -/
+def Un.finishSlots (s : Un) : Nat → Un
+  | 0 => s
+  | h + 1 => (Un.finishSlots s h).stepD (.dtor h)
+
+/-- … then the raw pointers the program still holds are deleted -/
+def Un.finishRaws (s : Un) : Nat → Un
+  | 0 => s
+  | r + 1 => (Un.finishRaws s r).stepD (.del r)
+
+def Un.finish (s : Un) : Un :=
+  let s1 := s.finishSlots s.k
+  s1.finishRaws s1.nraw
+
 /-! ## variant and function_ref -/
 
 /-- `variant<monostate, bool, int64_t, std::string>` (the shapes the API uses): a tag and the payload of that tag -/
